@@ -11,6 +11,10 @@ import (
 	"time"
 
 	dtls "github.com/pion/dtls/v3"
+	"github.com/pion/dtls/v3/pkg/crypto/elliptic"
+	"github.com/pion/dtls/v3/pkg/protocol/extension"
+	"github.com/pion/dtls/v3/pkg/protocol/extension/dtls13"
+	"github.com/pion/dtls/v3/pkg/protocol/handshake"
 	"github.com/pion/dtls/v3/zzverif/run"
 	"github.com/pion/dtls/v3/zzverif/world"
 )
@@ -55,6 +59,11 @@ type profile struct {
 	// which is what a spoofed victim's host answers a cookie request with). Whatever the library makes of the
 	// failed send, a cookie request may still leave only in direct response to a ClientHello, never on a timer.
 	SendFault bool
+	// FreeKeyShare: the client's first ClientHello has no share for the group the server prefers, so the
+	// HelloRetryRequest selects a group and the genuine second ClientHello carries a fresh share for it
+	// (RFC 8446 4.1.2: key_share is one of the fields a retried ClientHello replaces). "Otherwise identical" is
+	// then judged with key_share left out, as the cookie extension is.
+	FreeKeyShare bool
 }
 
 func profiles() []profile {
@@ -80,8 +89,42 @@ func profiles() []profile {
 		{Name: "12sf", SendFault: true},
 		{Name: "12nbsf", SendFault: true, S: world.Cfg{NoBackoff: true, FlightInterval: 300 * time.Millisecond}},
 		{Name: "13sf", V13: true, SendFault: true, C: v13(world.Cfg{}), S: v13(world.Cfg{})},
+		// a client that, like most other stacks, sends a key share for ONE group only, and not for the group the
+		// server prefers: the HelloRetryRequest then also selects a group and the second ClientHello differs from
+		// the first in key_share as well as in the cookie (the library's own client offers a share for every group)
+		{Name: "13ks", V13: true, FreeKeyShare: true, C: v13(world.Cfg{Extra: []dtls.Option{oneKeyShare(elliptic.X25519)}}), S: v13(world.Cfg{})},
 		{Name: "13nb", V13: true, C: v13(world.Cfg{}), S: v13(world.Cfg{NoBackoff: true, FlightInterval: 300 * time.Millisecond})},
 	}
+}
+
+// oneKeyShare is a ClientHello hook that keeps, in a ClientHello offering shares for several groups, only the
+// share for keep (idempotent: the second ClientHello carries the one share the server asked for and stays as
+// it is).
+func oneKeyShare(keep elliptic.Curve) dtls.Option {
+	return dtls.WithClientHelloMessageHook(func(m handshake.MessageClientHello) handshake.Message {
+		for i, e := range m.Extensions {
+			if e.ExtensionType() != extension.TypeKeyShare {
+				continue
+			}
+			ks, ok := e.(*dtls13.ClientKeyShare)
+			if !ok {
+				panic(fmt.Sprintf("HARNESS: key_share extension of type %T", e))
+			}
+			if len(ks.Shares) < 2 {
+				continue
+			}
+			var kept []dtls13.KeyShareEntry
+			for _, sh := range ks.Shares {
+				if sh.Group == keep {
+					kept = append(kept, sh)
+				}
+			}
+			ext := append([]extension.Value(nil), m.Extensions...)
+			ext[i] = &dtls13.ClientKeyShare{Shares: kept}
+			m.Extensions = ext
+		}
+		return &m
+	})
 }
 
 func (p profile) ver() string {
@@ -101,6 +144,7 @@ type genuine struct {
 	H1, H2   *hello
 	Cookie   []byte
 	MaxFrag  int
+	FreeKS   bool
 }
 
 func (g *genuine) analyse(v13 bool) error {
@@ -147,8 +191,11 @@ func (g *genuine) analyse(v13 bool) error {
 	if !ok || !bytes.Equal(c2, g.Cookie) || len(g.Cookie) == 0 {
 		return fmt.Errorf("genuine second ClientHello does not echo the issued cookie (%x vs %x)", c2, g.Cookie)
 	}
-	if !bytes.Equal(withoutCookie(g.H2, v13), withoutCookie(g.H1, v13)) {
+	if !bytes.Equal(comparable(g.H2, v13, g.FreeKS), comparable(g.H1, v13, g.FreeKS)) {
 		return fmt.Errorf("genuine second ClientHello differs from the first in more than the cookie")
+	}
+	if g.FreeKS && bytes.Equal(withoutCookie(g.H2, v13), withoutCookie(g.H1, v13)) {
+		return fmt.Errorf("profile expects a HelloRetryRequest that selects a group, but the second ClientHello kept its key_share")
 	}
 	return nil
 }
@@ -167,6 +214,10 @@ const (
 	famExtended  = "cookie-extended"
 	famBody      = "right-cookie-altered-body"
 	famExact     = "exact"
+	// famExactOrRef: right cookie, everything but the payload of key_share as in the first ClientHello, after a
+	// HelloRetryRequest that selected a group: the property lets the server proceed, the protocol lets it
+	// refuse (wrong group) — either is accepted
+	famExactOrRef = "exact-or-refused"
 	famResumeKnw = "resume-known-session"
 	famNotHello  = "not-a-clienthello"
 )
@@ -211,6 +262,22 @@ func buildVariants(g *genuine, v13 bool) []variant {
 	if v13 {
 		// no cookie at all: the first ClientHello under message_seq 1
 		add("cookie-ext-removed", famAbsent, "", func(g *genuine, _ []byte) second { return second{H: g.H1.clone(), MsgSeq: 1} })
+		if g.FreeKS {
+			// the second ClientHello (fresh share for the selected group) with the cookie extension left out
+			add("cookie-ext-removed-fresh-share", famAbsent, "", func(g *genuine, _ []byte) second {
+				h, err := parseHello(withoutCookie(g.H2, true))
+				if err != nil {
+					panic(err)
+				}
+				return second{H: h, MsgSeq: 1}
+			})
+			// right cookie, but the first ClientHello's own key_share instead of the requested one
+			add("cookie-right-old-share", famExactOrRef, "", func(g *genuine, _ []byte) second {
+				h := g.H2.clone()
+				h.Exts[h.extIndex(extKeyShare)].Data = append([]byte{}, g.H1.Exts[g.H1.extIndex(extKeyShare)].Data...)
+				return second{H: h, MsgSeq: 1}
+			})
+		}
 	}
 	cookieVar("cookie-empty", famAbsent, func(_, _ []byte) []byte { return nil })
 	n := len(g.Cookie)
@@ -225,8 +292,9 @@ func buildVariants(g *genuine, v13 bool) []variant {
 	}
 	cookieVar("cookie-extended", famExtended, func(c, _ []byte) []byte { return append(append([]byte{}, c...), 0xA5) })
 
+	bodyFam := famBody
 	body := func(alt string, f func(h *hello)) {
-		add("body/"+alt, famBody, alt, func(g *genuine, _ []byte) second {
+		add("body/"+alt, bodyFam, alt, func(g *genuine, _ []byte) second {
 			h := g.H2.clone()
 			f(h)
 			return second{H: h, MsgSeq: 1}
@@ -269,19 +337,30 @@ func buildVariants(g *genuine, v13 bool) []variant {
 		if v13 && typ == extCookie {
 			continue // alterations of the cookie extension are the cookie families above
 		}
+		// after a HelloRetryRequest that selected a group, key_share is (like the cookie) outside the comparison:
+		// variants that only touch it are "exact or refused"
+		bodyFam = famBody
+		if g.FreeKS && typ == extKeyShare {
+			bodyFam = famExactOrRef
+		}
 		body(fmt.Sprintf("ext-%d-removed", typ), func(h *hello) { h.Exts = append(h.Exts[:i:i], h.Exts[i+1:]...) })
-		body(fmt.Sprintf("ext-%d-altered", typ), func(h *hello) {
+		alter := func(h *hello) {
 			d := h.Exts[i].Data
 			if len(d) == 0 {
 				h.Exts[i].Data = []byte{0}
 			} else {
 				d[len(d)-1] ^= 1
 			}
-		})
+		}
+		body(fmt.Sprintf("ext-%d-altered", typ), alter)
+		if g.FreeKS && i+1 < len(g.H2.Exts) && g.H2.Exts[i+1].Type == extKeyShare {
+			bodyFam = famExactOrRef
+		}
 		if i+1 < len(g.H2.Exts) && !(v13 && g.H2.Exts[i+1].Type == extCookie) {
 			body(fmt.Sprintf("ext-%d-%d-swapped", typ, g.H2.Exts[i+1].Type), func(h *hello) { h.Exts[i], h.Exts[i+1] = h.Exts[i+1], h.Exts[i] })
 		}
 	}
+	bodyFam = famBody
 	body("ext-unknown-appended", func(h *hello) { h.Exts = append(h.Exts, ext{Type: 0xffa5, Data: []byte{1, 2, 3}}) })
 	if !v13 {
 		body("ext-block-removed", func(h *hello) { h.HasExts, h.Exts = false, nil })
@@ -366,6 +445,7 @@ func placements(thorough, withMid bool) []placement {
 type oracle struct {
 	v13       bool
 	h1NoCk    []byte
+	freeKS    bool
 	exact     bool     // an exact ClientHello has been delivered
 	proceeded bool     // the server emitted a real ServerHello after that
 	chDgrams  int      // ClientHello datagrams delivered so far
@@ -400,7 +480,7 @@ func (o *oracle) isExact(body []byte) bool {
 			hit = true
 		}
 	}
-	return hit && bytes.Equal(withoutCookie(h, o.v13), o.h1NoCk)
+	return hit && bytes.Equal(comparable(h, o.v13, o.freeKS), o.h1NoCk)
 }
 
 // observe judges what the server emitted in one step. trigger is the delivered datagram (nil for a
@@ -511,6 +591,7 @@ type runner struct {
 	// notHello: the datagrams of the current "second" are not ClientHello datagrams
 	notHello  bool
 	sendFault bool
+	freeKS    bool
 }
 
 // newServerEmissions returns what the server emitted since the last call and clears the network.
@@ -663,7 +744,9 @@ func (r *runner) capture(v13 bool) (*genuine, string) {
 	if err != nil {
 		return nil, "harness: " + err.Error()
 	}
-	r.orc.h1NoCk = withoutCookie(h1, v13)
+	r.orc.freeKS = r.freeKS
+	r.orc.h1NoCk = comparable(h1, v13, r.orc.freeKS)
+	g.FreeKS = r.freeKS
 	r.visit("init")
 	elicit := 0
 	var reqs [][]byte
@@ -739,7 +822,7 @@ func probe(t *testing.T, p *world.PKI, prof profile, seed uint64) (g *genuine, m
 			msg = "setup: " + err.Error()
 			return
 		}
-		r := &runner{w: w, pr: pr, orc: &oracle{v13: prof.V13}}
+		r := &runner{w: w, pr: pr, orc: &oracle{v13: prof.V13}, freeKS: prof.FreeKeyShare}
 		g, msg = r.capture(prof.V13)
 		if g == nil && msg == "" {
 			msg = r.orc.kind + ": " + r.orc.text
@@ -785,7 +868,7 @@ func runExec(t *testing.T, p *world.PKI, c execCase, seed uint64, ref *genuine) 
 			return
 		}
 		defer pr.CloseAll()
-		r := &runner{w: w, pr: pr, orc: &oracle{v13: v13}, sendFault: c.P.SendFault}
+		r := &runner{w: w, pr: pr, orc: &oracle{v13: v13}, sendFault: c.P.SendFault, freeKS: c.P.FreeKeyShare}
 		finish := func() {
 			o.States, o.Transitions = r.tr.States, r.tr.Trans
 			_, serr := pr.S.HS.Result()
@@ -912,6 +995,13 @@ func runExec(t *testing.T, p *world.PKI, c execCase, seed uint64, ref *genuine) 
 				o.Counters["positive_control_FAILED"]++
 				o.Class += ";POSITIVE-CONTROL-FAILED"
 			}
+		case c.V.Family == famExactOrRef:
+			o.NonTrivial = r.orc.exact
+			if r.orc.proceeded {
+				o.Counters["free_keyshare_variant_server_proceeded"]++
+			} else {
+				o.Counters["free_keyshare_variant_server_refused"]++
+			}
 		case r.orc.exact:
 			// a non-exact variant must never be judged exact: the alphabet would be mislabelled
 			o.Violation, o.Key = "harness: variant "+c.V.Name+" was judged exact by the oracle", "harness"
@@ -1002,7 +1092,7 @@ func runTinyFragment(t *testing.T, p *world.PKI, prof profile, seed uint64) run.
 			return
 		}
 		defer pr.CloseAll()
-		r := &runner{w: w, pr: pr, orc: &oracle{v13: prof.V13}}
+		r := &runner{w: w, pr: pr, orc: &oracle{v13: prof.V13}, freeKS: prof.FreeKeyShare}
 		g, msg := r.capture(prof.V13)
 		if g == nil {
 			o.Class = "info/" + prof.Name + "/tiny-fragment:capture-failed(" + msg + r.orc.kind + ")"
